@@ -490,7 +490,7 @@ func GenCase(r *rand.Rand, thorough bool) *Case {
 	k.NPkgs = 2 + r.IntN(5)
 	k.ValuePct = []int{10, 30, 60}[r.IntN(3)]
 	k.InjPerPkg = 2 + r.IntN(4)
-	if r.IntN(2) == 0 {
+	if r.IntN(3) > 0 {
 		k.ExtPkgs = 1 + r.IntN(2)
 	}
 	if r.IntN(2) == 0 {
@@ -531,6 +531,18 @@ func GenCase(r *rand.Rand, thorough bool) *Case {
 		n = 14
 	}
 	c.Configs = append([]Config{baseline()}, GenConfigs(r, pkgs, n, true)...)
+	// the property names the dependency layouts explicitly: every generated program is generated at
+	// least once from a vendor directory (GOPATH+vendor twice as often: the only layout in which the
+	// loader reports vendored packages under their vendor/ path), and thorough runs add plain GOPATH
+	lc := baseline()
+	lc.Layout = []string{world.LayoutGopathVendor, world.LayoutGopathVendor, world.LayoutModVendor}[r.IntN(3)]
+	lc.Label = "layout " + lc.Layout
+	c.Configs = append(c.Configs, lc)
+	if thorough {
+		lc.Layout = world.LayoutGopath
+		lc.Label = "layout " + lc.Layout
+		c.Configs = append(c.Configs, lc)
+	}
 	return c
 }
 
